@@ -24,7 +24,7 @@ def glab(x):
 
 def gen_labels(r, np):
   n = r.choice([1, 2, 3, 4, 5, 6, 8, 11, 16, 30])
-  kind = r.choice(['plain', 'ties', 'ties_top', 'outlier', 'magnitude', 'const', 'small_ints', 'huge', 'all_missing', 'one_finite'])
+  kind = r.choice(['plain', 'ties', 'ties_top', 'outlier', 'magnitude', 'const', 'small_ints', 'huge', 'all_missing', 'one_finite', 'minute'])
   if kind == 'ties':
     base = [r.choice([0., 1., 2., 3.5, -1., 10., 1e-3]) for _ in range(n)]
   elif kind == 'ties_top':
@@ -38,6 +38,10 @@ def gen_labels(r, np):
     base = [r.uniform(-5, 5) * 10 ** r.choice([0, 0, 3, -6, 12]) for _ in range(n)]
   elif kind == 'huge':
     base = [r.uniform(-1, 1) * 10 ** r.choice([100, 150, 160, 0]) for _ in range(n)]
+  elif kind == 'minute':
+    # well separated values of a very small magnitude (their squares underflow)
+    sc_ = 10.0 ** r.choice([-200, -170, -300])
+    base = [float(r.randrange(1, 9)) * sc_ for _ in range(n)]
   elif kind == 'all_missing':
     base = [float('nan')] * n
   elif kind == 'one_finite':
@@ -194,6 +198,9 @@ def run(tier, seed):
         continue     # 0/0 for a constant array: the pipeline short cut / half-rank run before it; on its own it is undefined
       if name in ('HalfRankComponent', 'LogWarperComponent', 'DetectOutliers') and fin.size == 0:
         continue
+      if kind == 'minute' and name == 'InfeasibleWarperComponent':
+        # on its own this component adds a shift of order 1 to labels of order 1e-200: they merge by absorption (never reverse)
+        strict = False
       run_warper(name, mk, y.copy(), strict, finreq, infr, fonly, unw)
       if k % 3 == 0 and fin.size >= 2 and name in ('default pipeline', 'outlier pipeline', 'LogWarperComponent', 'HalfRankComponent', 'ZScoreLabels', 'NormalizeLabels'):
         # the same object first warps the labels WITHOUT the best one (the study before its best trial arrived), then all of them;
